@@ -1274,7 +1274,13 @@ class Deme:
             # Deme doesn't exist.
             return 0
 
-        if math.isclose(time, epoch.end_time) or epoch.size_function == "constant":
+        if (
+            math.isclose(time, epoch.end_time)
+            or epoch.size_function == "constant"
+            or epoch.start_size == epoch.end_size
+        ):
+            # Equal sizes mean a constant size whatever the size_function;
+            # this also avoids inf/inf = nan for an infinite-length epoch.
             N = epoch.end_size
         elif epoch.size_function == "exponential":
             dt = (epoch.start_time - time) / epoch.time_span
